@@ -109,8 +109,18 @@ func (s *session) loopWrite() {
 		// Stop of the whole service) waiting once the connection is gone.
 		select {
 		case <-req.done:
-		case <-s.quit:
-			return
+		default:
+			// not answered yet. The replies encoded before it were not flushed
+			// because this request was queued then: they must not wait in the
+			// buffer for a backend that may answer late or never.
+			if err = s.enc.Flush(); err != nil {
+				goto FAIL
+			}
+			select {
+			case <-req.done:
+			case <-s.quit:
+				return
+			}
 		}
 		// TODO(kirk91): abstract response
 		resp := req.Response()
